@@ -5,3 +5,4 @@ import DinoProofs.Properties.C15
 import DinoProofs.Lemmas.SH
 import DinoProofs.Properties.C20
 import DinoProofs.Properties.C18
+import DinoProofs.Properties.C14
